@@ -142,12 +142,6 @@ end Absnfs
 namespace Absnfs
 namespace Server
 
-/-- the arguments of CREATE after the directory handle and the name: createhow3 and its payload -/
-def parseCreateHow (how : Nat) (r3 : Bytes) : Option (Sattr3 × Bytes) :=
-  if how = 0 ∨ how = 1 then (decSattr3 r3).map fun x => (x.1, [])
-  else if how = 2 then (take? 8 r3).map fun x => ({}, x.1)
-  else some ({}, [])
-
 /-- CREATE of a name that is taken goes through `createExisting` (with the backend as GETATTR of the directory left it:
     the filesystem itself unchanged) — for every well-formed request on a live directory handle. -/
 theorem procCreate_taken (s : St) (c : Ctx) (args : Bytes) (h : Nat) (r1 r2 r3 name : Bytes) (how : Nat) (sa : Sattr3)
@@ -161,7 +155,6 @@ theorem procCreate_taken (s : St) (c : Ctx) (args : Bytes) (h : Nat) (r1 r2 r3 n
     procCreate s c args = createExisting s1 c n pre (joinName n.path name) info how sa verf := by
   unfold procCreate
   simp only [hro, Bool.false_eq_true, if_false, hfh, hname, hvalid, ne_eq, not_true_eq_false, hhow]
-  unfold parseCreateHow at hparse
   simp only [hparse, hmode, not_true_eq_false, if_false, hn, hpre, hlstat]
 
 end Server
